@@ -249,8 +249,8 @@ pub fn random_spec(rng: &mut Rng, p: &Profile) -> CaseSpec {
     let (variant, width) = if large {
         let mut v = variant;
         // a loose admissible bound: long searches (hundreds / thousands of sub-problems, fringes of hundreds of nodes)
-        v.rub = RubKind::Slack(rng.next() % 1000);
-        (v, match width { WidthKind::Fixed(w) if w < 3 => WidthKind::Fixed(w + 3), WidthKind::Times(_, _) | WidthKind::DivBy(_, _) => WidthKind::Fixed(6), w => w })
+        v.rub = RubKind::Slack((rng.next() % 1000) | 1);
+        (v, WidthKind::Fixed(2 + rng.usize(5)))
     } else { (variant, width) };
     let cfg = Cfg::seq(dd, rng.chance(1, 2), if rng.chance(1, 2) { FringeKind::Simple } else { FringeKind::NoDup }, width);
     CaseSpec { family: fam, gen_seed: rng.next() >> 16, size, variant, cfg }
